@@ -328,9 +328,38 @@ def _reference(world):
     cfg = build_config(world)
     flux = surface_flux(world)
     out = {"plain": [], "flux": [], "names": [t.name for t in cfg.towers], "n": cfg.met.n_timesteps}
-    for t in cfg.towers:
-        out["plain"].append([run_bldfm_single(cfg, t, met_index=i) for i in range(cfg.met.n_timesteps)])
-        out["flux"].append([run_bldfm_single(cfg, t, met_index=i, surface_flux=flux) for i in range(cfg.met.n_timesteps)])
+
+    def fresh(ti, i, with_flux):
+        """One single run in its own fork of this (kernel-warm, otherwise
+        pristine) process: no single run can influence another one."""
+        r, w = os.pipe()
+        pid = os.fork()
+        if pid == 0:
+            try:
+                os.close(r)
+                c = build_config(world)
+                res = run_bldfm_single(c, c.towers[ti], met_index=i, surface_flux=flux if with_flux else None)
+                _send(w, res)
+            except BaseException:
+                try:
+                    _send(w, {"__error__": traceback.format_exc()})
+                except BaseException:
+                    pass
+            finally:
+                os._exit(0)
+        os.close(w)
+        try:
+            res = _recv(r)
+        finally:
+            os.close(r)
+            os.waitpid(pid, 0)
+        if isinstance(res, dict) and "__error__" in res:
+            raise RuntimeError(res["__error__"])
+        return res
+
+    for ti, t in enumerate(cfg.towers):
+        out["plain"].append([fresh(ti, i, False) for i in range(cfg.met.n_timesteps)])
+        out["flux"].append([fresh(ti, i, True) for i in range(cfg.met.n_timesteps)])
     return out
 
 
